@@ -123,6 +123,8 @@ func NewSchema(config SchemaConfig) (Schema, error) {
 		}
 	}
 
+	schema.buildPossibleTypeMap()
+
 	// Enforce correct interface implementations
 	for _, ttype := range schema.typeMap {
 		if ttype, ok := ttype.(*Object); ok {
@@ -163,6 +165,8 @@ func (gq *Schema) AddImplementation() error {
 			}
 		}
 	}
+
+	gq.buildPossibleTypeMap()
 
 	// Enforce correct interface implementations
 	for _, ttype := range gq.typeMap {
@@ -239,25 +243,43 @@ func (gq *Schema) PossibleTypes(abstractType Abstract) []*Object {
 	return []*Object{}
 }
 func (gq *Schema) IsPossibleType(abstractType Abstract, possibleType *Object) bool {
-	possibleTypeMap := gq.possibleTypeMap
-	if possibleTypeMap == nil {
-		possibleTypeMap = map[string]map[string]bool{}
+	if typeMap, ok := gq.possibleTypeMap[abstractType.Name()]; ok {
+		return typeMap[possibleType.Name()]
 	}
+	// Not precomputed (the schema is still being built, or the abstract type
+	// is not part of it): answer from the implementation tables without
+	// caching, so that a published schema is never written to by requests.
+	for _, possible := range gq.PossibleTypes(abstractType) {
+		if possible.Name() == possibleType.Name() {
+			return true
+		}
+	}
+	return false
+}
 
-	if typeMap, ok := possibleTypeMap[abstractType.Name()]; !ok {
-		typeMap = map[string]bool{}
+// buildPossibleTypeMap precomputes the possible-type table of every abstract
+// type in the type map. It runs at construction time only; IsPossibleType
+// reads the table without modifying it, which keeps a Schema safe to share
+// between concurrent requests.
+func (gq *Schema) buildPossibleTypeMap() {
+	possibleTypeMap := map[string]map[string]bool{}
+	for _, ttype := range gq.typeMap {
+		var abstractType Abstract
+		switch ttype := ttype.(type) {
+		case *Interface:
+			abstractType = ttype
+		case *Union:
+			abstractType = ttype
+		default:
+			continue
+		}
+		typeMap := map[string]bool{}
 		for _, possibleType := range gq.PossibleTypes(abstractType) {
 			typeMap[possibleType.Name()] = true
 		}
 		possibleTypeMap[abstractType.Name()] = typeMap
 	}
-
 	gq.possibleTypeMap = possibleTypeMap
-	if typeMap, ok := possibleTypeMap[abstractType.Name()]; ok {
-		isPossible, _ := typeMap[possibleType.Name()]
-		return isPossible
-	}
-	return false
 }
 
 // AddExtensions can be used to add additional extensions to the schema
